@@ -107,3 +107,50 @@ def writer_goal_keys(fn, table_attr="lanelets_of_goal_position"):
                     if inside and len(inside) != len(ds):
                         out.append((a, False))
     return out
+
+
+def writer_goal_pairs(repo, cls, fn, goal_builder, other_stubs=()):
+    """Writer side of the goal-lanelet pairing, by abstract evaluation: the planning-problem builder is evaluated on a
+    problem with three goal states of which the first and the last have goal lanelets; `goal_builder`
+    ("Class.method", stubbed) must be called once per goal state, in order, with that state and exactly its own
+    lanelets (none for the state without).  Returns a list of problems (empty = fine)."""
+    from .strdom import NONE, ClassRef, DictV, ElemV, Ev, ListV, Obj, Str, Sym, Undecided, _Raise, same, show
+
+    out = []
+    for with_table in (True, False):
+        goals = [Obj(None, {"time_step": Sym("goal_time_%d" % i, "num")}, label="goal state %d" % i) for i in range(3)]
+        table = {0: ListV([101, 102]), 2: ListV([303])}
+        goal = Obj(None, {"state_list": ListV(goals), "lanelets_of_goal_position": DictV(table) if with_table else NONE}, closed=True, label="goal region")
+        init = Obj(None, {"time_step": Sym("initial_time", "num")}, label="initial state")
+        pp = Obj(None, {"planning_problem_id": Sym("planning_problem_id", "int", positive=True), "initial_state": init, "goal": goal}, closed=True, label="planning problem")
+        calls = []
+        ev = Ev(repo)
+        ev.pure_modules = {"np", "numpy", "math"}
+
+        def record(a):
+            vals = [v for k, v in a.items() if not isinstance(v, ClassRef)]
+            calls.append(vals)
+            return ElemV(Str.lit("goalState"))
+
+        ev.stubs[goal_builder] = record
+        for nm in other_stubs:
+            ev.stubs[nm] = lambda a: ElemV(Str.lit("stub"))
+        try:
+            ev.call_fn(ev.bind(fn, cls, None, via_class=ClassRef(cls)), [pp], {}, fn)
+        except _Raise as x:
+            out.append("%s goal lanelets: raises %s" % ("with" if with_table else "without", x.what))
+            continue
+        except Undecided as x:
+            from .core import AnalysisError
+
+            raise AnalysisError("%s.%s: %s" % (cls.name, fn.name, x))
+        if len(calls) != 3 or any(not c or c[0] is not g for c, g in zip(calls, goals)):
+            out.append("%s goal lanelets: the goal-state builder is called for %s, expected once per goal state in order" % ("with" if with_table else "without", [show(c[0]) if c else None for c in calls]))
+            continue
+        for i, c in enumerate(calls):
+            want = table.get(i) if with_table else None
+            got = c[1] if len(c) > 1 else None
+            okk = (got is want) if want is not None else (isinstance(got, ListV) and not got.items) or got is NONE or got is None
+            if not okk:
+                out.append("%s goal lanelets: goal state %d is written with lanelets %s, its own are %s" % ("with" if with_table else "without", i, show(got), show(want) if want is not None else "none"))
+    return out
